@@ -1,6 +1,9 @@
 #include <fault/util.hpp>
 
 #include <yaclib/fault/injector.hpp>
+#ifdef YACLIB_VERIF
+#  include <yaclib/fault/verif_hook.hpp>
+#endif
 
 #include <yaclib_std/thread>
 
@@ -27,6 +30,11 @@ bool Injector::NeedInject() noexcept {
   if (_pause) {
     return false;
   }
+#ifdef YACLIB_VERIF
+  if (auto* hook = verif::GetHook(); hook != nullptr && hook->choose) {
+    return hook->Preempt();
+  }
+#endif
   if (_count.fetch_add(1, std::memory_order_relaxed) >= sYieldFrequency) {
     Reset();
     return true;
